@@ -198,10 +198,10 @@ def latest_replays(chk):
     tmp = os.getcwd()
     depth = 6 if chk.quick else 8
     total = 0
-    for configured in (0, 1, 2):
-        cfg = os.path.join(tmp, f'latest{configured}.cfg')
+    for configured, nr, depth in ([(0, 3, 6), (1, 3, 6), (2, 3, 6), (0, 2, 7)] if chk.quick else [(0, 3, 8), (1, 3, 8), (2, 3, 8)]):
+        cfg = os.path.join(tmp, f'latest{configured}-{nr}.cfg')
         with open(cfg, 'w') as fh:
-            fh.write(f'SPECIFICATION Spec\nCONSTANTS NR = 3\n MaxGen = 2\n Configured = {configured}\n Depth = {depth}\n'
+            fh.write(f'SPECIFICATION Spec\nCONSTANTS NR = {nr}\n MaxGen = 2\n Configured = {configured}\n Depth = {depth}\n'
                      'CONSTRAINT Bound\nINVARIANT ImplRefines\nINVARIANT FreshAfterTick\nINVARIANT NewestWellFormed\n'
                      'INVARIANT Export\nCHECK_DEADLOCK FALSE\n')
         res = chk.tlc('Latest', cfg, workers=1, require=['Publish', 'Commit', 'Select', 'Tick'])
